@@ -64,3 +64,17 @@ package fastq
 //@   ensures forall t int :: 0 <= t && t < len(Y) && Y[t].1 != nil ==> t == len(Y)-1
 //@   loop 1
 //@     invariant !openFails(file) && len(Y) == K && forall t int :: 0 <= t && t < K ==> same(Y[t], ZR[t])
+
+// ---- writer ----
+
+//@ func Fastq.Write
+//@   props C02 C07
+//@   requires !w.failed
+//@   ensures result == nil <==> !w.failed
+//@   ensures result == nil || ioErr(result)
+//@   ensures result == nil ==> len(w.out) == old(len(w.out)) + 6 + len(f.Name) + len(f.Sequence) + len(f.Quals)
+
+//@ func Fastq.MarshalText
+//@   props C02
+//@   ensures result.1 == nil
+//@   ensures len(result.0) == 6 + len(f.Name) + len(f.Sequence) + len(f.Quals)
